@@ -279,6 +279,11 @@ def kfLine (name : String) : String :=
       let v := match s1.get 1 with | some o1 => showBody o1.body | none => "?"
       s!"kf delraw-stack-box exc={showOutcome out} v={v} rel={s1.freed.length}"
     | none => "bad-op"
+  else if name.startsWith "copy-view-" then
+    -- copy(new(<View>, ..)): no Copy instance -> assign(alloc(T), v); Range / Slice / Zip assign into a NULL sub-object
+    match copyViewOutcome (name.drop 10).toString with
+    | some out => s!"kf {name} exc={showOutcome out}"
+    | none => "bad-op"
   else "bad-op"
 
 def showIds (l : List Nat) : String := if l.isEmpty then "-" else ",".intercalate (l.map toString)
@@ -313,8 +318,9 @@ def main (args : List String) : IO Unit := do
         IO.println s!"O {name} exc={showOutcome out} {describe s t} rel={showIds (s.freed.drop nFreed)}"
       | .items l => IO.println ("O " ++ showItems l)
       | .swept how ids out =>
-        -- the teardown is observed in a forked child: when it does not complete, its ledger is lost
-        let shown := if how == "exit" && out != .ok then "*" else showIds ids
+        -- the teardown (and a collection that loses a Type) is observed in a forked child: when that does not complete
+        -- cleanly, its ledger is lost
+        let shown := if out != .ok then "*" else showIds ids
         IO.println s!"O {how} exc={showOutcome out} freed={shown}"
       | .fin =>
         let liveHeap := (s.objs.filter (fun p => p.2.live && p.2.hdr.alloc == cfg.cHeap)).length
